@@ -18,6 +18,8 @@ type AsmOp struct {
 	// Expect is what the builder contract says this call returns (filled by the generator):
 	// "ok", "e:repeatedKey", "e:wrongKind", "e:other"; "" = no expectation
 	Expect string
+	// Note names an injected call for the run's distribution ("" for the legal calls); not part of the token form
+	Note string
 }
 
 func (op AsmOp) Tokens() string {
@@ -293,10 +295,116 @@ func RunOps(nb datamodel.NodeBuilder, ops []AsmOp, mkNode func(Val) (datamodel.N
 	return outs, final
 }
 
+// HistoryOpts says which refused calls GenHistoryOpts mixes into a legal history.
+type HistoryOpts struct {
+	// the two rejections every builder pins down: a repeated key (supplied in each of the three ways), a kind the KEY position cannot hold
+	Inject bool
+	// typed builders only (every position of the type must hold exactly one kind - the plain-schema fragment): calls of a kind the
+	// VALUE position cannot hold (scalar assigns, Begin* of the other recursive kind, AssignNode of such nodes)
+	WrongKindValues bool
+	// typed builders only: AssignNode of a map/list node that is the legal value with ONE entry's value replaced by a scalar of
+	// another kind - the copy is refused part of the way through; the legal history for the position follows on the same assembler
+	RefusedAssignNode bool
+}
+
+func kindClass(v Val) byte {
+	if v.K == 'f' {
+		return 't'
+	}
+	return v.K
+}
+
+// otherKindScalar is a non-null scalar whose kind differs from v's.
+func otherKindScalar(v Val, r *Rand) Val {
+	cands := []Val{Int(int64(r.Intn(9))), Str("x"), Bool(r.Bool()), Float(1.5), Bytes([]byte{1}), Str("")}
+	for {
+		c := cands[r.Intn(len(cands))]
+		if kindClass(c) != kindClass(v) {
+			return c
+		}
+	}
+}
+
+// refusedValueCalls: calls the typed value position that is about to receive v must refuse (v is not null: the kind of a
+// nullable position is not known from a null).
+func refusedValueCalls(v Val, r *Rand, o HistoryOpts) []AsmOp {
+	var ops []AsmOp
+	if v.K == 'n' {
+		return nil
+	}
+	if o.WrongKindValues && r.Chance(1, 5) {
+		for n := 1 + r.Intn(2); n > 0; n-- {
+			switch r.Intn(6) {
+			case 0, 1:
+				ops = append(ops, AsmOp{Kind: "A", V: otherKindScalar(v, r), Expect: "e:wrongKind", Note: "value-kind"})
+			case 2:
+				ops = append(ops, AsmOp{Kind: "AN", V: otherKindScalar(v, r), Expect: "e:wrongKind", Note: "value-kind"})
+			case 3:
+				if v.K != '{' {
+					ops = append(ops, AsmOp{Kind: "BM", Hint: int64(r.Intn(3)) - 1, Expect: "e:wrongKind", Note: "value-kind"})
+				}
+			case 4:
+				if v.K != '[' {
+					ops = append(ops, AsmOp{Kind: "BL", Hint: int64(r.Intn(3)) - 1, Expect: "e:wrongKind", Note: "value-kind"})
+				}
+			case 5:
+				if v.K != '[' && r.Bool() {
+					ops = append(ops, AsmOp{Kind: "AN", V: List(), Expect: "e:wrongKind", Note: "value-kind"})
+				} else if v.K != '{' {
+					ops = append(ops, AsmOp{Kind: "AN", V: Map(), Expect: "e:wrongKind", Note: "value-kind"})
+				}
+			}
+		}
+	}
+	if o.RefusedAssignNode && (v.K == '[' && len(v.L) > 0 || v.K == '{' && len(v.M) > 0) && r.Chance(1, 5) {
+		// the legal value with one entry's value of the wrong kind (an entry whose value is not null; later entries preferred,
+		// so that part of the node is copied before the refusal)
+		n := len(v.L) + len(v.M)
+		j := n - 1 - r.Intn((n+1)/2)
+		at := func(i int) Val {
+			if v.K == '[' {
+				return v.L[i]
+			}
+			return v.M[i].V
+		}
+		for tries := 0; tries < n && at(j).K == 'n'; tries++ {
+			j = (j + 1) % n
+		}
+		if at(j).K != 'n' {
+			bad := Val{K: v.K}
+			if v.K == '[' {
+				bad.L = append([]Val{}, v.L...)
+				bad.L[j] = otherKindScalar(v.L[j], r)
+			} else {
+				bad.M = append([]KV{}, v.M...)
+				bad.M[j] = KV{v.M[j].K, otherKindScalar(v.M[j].V, r)}
+			}
+			ops = append(ops, AsmOp{Kind: "AN", V: bad, Expect: "e:refusedNode", Note: "refused-node"})
+		}
+	}
+	return ops
+}
+
 // GenHistory emits a legal history that builds v, drawing every choice the contract leaves open from r,
 // and (if inject) the two pinned rejections at random positions.  Every op carries the outcome the
 // contract prescribes; rejected calls leave no effect, so the history must build exactly v.
 func GenHistory(v Val, r *Rand, inject bool, atRoot bool) []AsmOp {
+	return GenHistoryOpts(v, r, HistoryOpts{Inject: inject})
+}
+
+// GenHistoryOpts is GenHistory with the refused calls chosen by o.
+func GenHistoryOpts(v Val, r *Rand, o HistoryOpts) []AsmOp {
+	if o.WrongKindValues || o.RefusedAssignNode {
+		if pre := refusedValueCalls(v, r, o); len(pre) > 0 {
+			o2 := o
+			return append(pre, genHistoryAt(v, r, o2)...)
+		}
+	}
+	return genHistoryAt(v, r, o)
+}
+
+func genHistoryAt(v Val, r *Rand, o HistoryOpts) []AsmOp {
+	inject := o.Inject
 	var ops []AsmOp
 	ok := func(o AsmOp) AsmOp { o.Expect = "ok"; return o }
 	hint := func(n int) int64 {
@@ -318,7 +426,7 @@ func GenHistory(v Val, r *Rand, inject bool, atRoot bool) []AsmOp {
 		ops = append(ops, ok(AsmOp{Kind: "BL", Hint: hint(len(v.L))}))
 		for _, x := range v.L {
 			ops = append(ops, ok(AsmOp{Kind: "AV"}))
-			ops = append(ops, GenHistory(x, r, inject, false)...)
+			ops = append(ops, GenHistoryOpts(x, r, o)...)
 		}
 		return append(ops, ok(AsmOp{Kind: "F"}))
 	case '{':
@@ -368,7 +476,7 @@ func GenHistory(v Val, r *Rand, inject bool, atRoot bool) []AsmOp {
 				}
 				ops = append(ops, ok(AsmOp{Kind: "AV"}))
 			}
-			ops = append(ops, GenHistory(e.V, r, inject, false)...)
+			ops = append(ops, GenHistoryOpts(e.V, r, o)...)
 		}
 		return append(ops, ok(AsmOp{Kind: "F"}))
 	}
@@ -376,4 +484,86 @@ func GenHistory(v Val, r *Rand, inject bool, atRoot bool) []AsmOp {
 		return []AsmOp{ok(AsmOp{Kind: "AN", V: v})}
 	}
 	return []AsmOp{ok(AsmOp{Kind: "A", V: v})}
+}
+
+// TasmLine is the case line of the typed-assembler model (Lean: Driver/TypedAsm.lean) for a history on the type-level
+// builder of t; engine = bindnode | gen | ideal.
+func TasmLine(engine string, t *SType, ops []AsmOp) string {
+	return "tasm.run " + engine + " " + t.Tokens() + " OPS " + OpsLine(ops)
+}
+
+// TasmCompare compares what a typed builder answered call by call (RunOps' form: "<out…> | <final>") with the model's
+// answer.  exact: every outcome token must be the model's (the engine's error classes are modelled); otherwise accepted /
+// refused / panic must agree and the repeated-key class where either side reports it.  The comparison ends without a
+// verdict on the rest where the model says `unclaimed` (it makes no claim after a refused AssignNode the engine leaves
+// half done) or where the harness could not make the call (`harness:…`).  "" = agree (or the type is outside the model).
+func TasmCompare(impl, model string, exact bool) string {
+	if model == "unsupported" {
+		return ""
+	}
+	ip := strings.SplitN(impl, " | ", 2)
+	mp := strings.SplitN(model, " | ", 2)
+	if len(ip) != 2 || len(mp) != 2 {
+		return "malformed answer"
+	}
+	ic, mc := strings.Fields(ip[0]), strings.Fields(mp[0])
+	class := func(o string) string {
+		if exact || o == "ok" || o == "panic" || o == "e:repeatedKey" {
+			return o
+		}
+		if strings.HasPrefix(o, "e:") {
+			return "refused"
+		}
+		return o
+	}
+	for j := 0; j < len(ic) || j < len(mc); j++ {
+		if j < len(mc) && mc[j] == "unclaimed" {
+			return ""
+		}
+		if j < len(ic) && strings.HasPrefix(ic[j], "harness:") {
+			return ""
+		}
+		if j >= len(ic) || j >= len(mc) {
+			return fmt.Sprintf("call %d: one side stopped", j)
+		}
+		if class(ic[j]) != class(mc[j]) {
+			return fmt.Sprintf("call %d: impl %s, model %s", j, ic[j], mc[j])
+		}
+	}
+	if ip[1] != mp[1] {
+		return "result: impl " + ip[1] + ", model " + mp[1]
+	}
+	return ""
+}
+
+// PlainType: the fragment of schemas whose type-level builders the typed-assembler model covers (Lean: TAsm.plain):
+// scalars, links, lists and String-keyed maps of such, structs of such (any representation: at type level a struct is a map).
+// Every position of such a type holds exactly one kind (or null, where nullable).
+func PlainType(t *SType) bool {
+	switch t.K {
+	case "bool", "int", "float", "str", "bytes", "link":
+		return true
+	case "list", "map":
+		return t.Elem != nil && PlainType(t.Elem)
+	case "struct":
+		for _, f := range t.Fields {
+			if !PlainType(f.T) {
+				return false
+			}
+		}
+		return true
+	}
+	return false
+}
+
+// TasmEngineFlag: the engine's model accepts, as a key handed to a key assembler, a call the contract's machine answers with
+// the repeated-key error (the one named deviation of generated code that is an acceptance: keyAsmDupMapKey).
+func TasmEngineFlag(engineModel, idealModel string) bool {
+	em, im := strings.Fields(strings.SplitN(engineModel, " | ", 2)[0]), strings.Fields(strings.SplitN(idealModel, " | ", 2)[0])
+	for j := 0; j < len(em) && j < len(im); j++ {
+		if em[j] != im[j] {
+			return em[j] == "ok" && im[j] == "e:repeatedKey"
+		}
+	}
+	return false
 }
